@@ -396,6 +396,32 @@ def r8(ctx, rep):
     rep.borrowed(C03.r1_r2, ctx, "C01.R8", "the rows a take returns are those of the order in effect")
 
 
+def r9(ctx, rep):
+    rep.rule("C01.R9", "the two functions that compute the row of a pipeline agree on what an Aggregate outputs", floor=2)
+    syn = ctx.syn
+    a = syn.fn("AnchorContext::determine_select_columns", crate="prqlc")
+    b = syn.fn("positional_mapping::compute_positional_mappings", crate="prqlc")
+
+    def agg_fields(f):
+        out = []
+        for m in matches_of(f["body"]):
+            for arm in m["arms"]:
+                for alt in pat_alts(arm["pat"]):
+                    for n in walk(alt):
+                        if n.get("k") == "p_struct" and last_seg(n["p"]) == "Aggregate":
+                            bound = [x[0] for x in n["f"]]
+                            used = [v for v in bound if any(y.get("k") == "path" and y["p"] == v for y in walk(arm["body"]))]
+                            out.append((arm["l"], used))
+        return out
+    fa, fb = agg_fields(a), agg_fields(b)
+    rep.check(len(fa) == 1 and fa[0][1] == ["partition", "compute"], "aggregate-row:determine_select_columns",
+              f"determine_select_columns must give an Aggregate the row partition ++ compute (GROUP BY columns, then the aggregates); found {fa}", file=a["file"], line=a["l"], fn=a["path"])
+    rep.check(len(fb) == 1 and fa and fb[0][1] == fa[0][1], "aggregate-row:compute_positional_mappings",
+              f"compute_positional_mappings tracks the row of the top operand to align a set operation's bottom operand by position; for an Aggregate it uses {fb[0][1] if fb else None} while "
+              f"determine_select_columns (the row that is emitted) uses {fa[0][1] if fa else None}: the stored mapping is then one column short and the bottom operand loses its aggregate column",
+              file=b["file"], line=fb[0][0] if fb else b["l"], fn=b["path"])
+
+
 def run(ctx, rep):
-    for r in (r1, r2, r3, r4, r5, r6, r7, r8):
+    for r in (r1, r2, r3, r4, r5, r6, r7, r8, r9):
         rep.guard(r, ctx)
